@@ -68,7 +68,7 @@ theorem required_eq_select : ∀ (segs : List ESeg) (r : Res),
 (nothing for a null document), and raises "unmatched" after an empty selection. -/
 theorem getRequired_eq_select (segs : List ESeg) (d : Node) :
     getRequired mt dsc segs d =
-      if d.isNull then Gen.nil else
+      if d.evIsNull then Gen.nil else
       Gen.append (select mt dsc segs (.real (d, Ctx.root)))
         (if (select mt dsc segs (.real (d, Ctx.root))).1.isEmpty then Gen.fail (.ypath .unmatched) else Gen.nil) := by
   simp [getRequired, required_eq_select]
@@ -77,7 +77,7 @@ theorem getRequired_eq_select (segs : List ESeg) (d : Node) :
 (and raises exactly when the selection raises). -/
 theorem exists_iff_select_nonempty (segs : List ESeg) (d : Node) :
     existsQ mt dsc segs d =
-      if d.isNull then .ok false else
+      if d.evIsNull then .ok false else
       match (select mt dsc segs (.real (d, Ctx.root))).collapse with
       | .ok l => .ok (!l.isEmpty)
       | .error e => .error e := by
